@@ -189,7 +189,23 @@ func apiChild() {
 	}
 }
 
+// runAPIChild runs a call history in a fresh process; a child starved past its limit on a saturated machine is run once more,
+// alone and with three times the limit, before the run counts as failed (see runCacheChild)
 func runAPIChild(job apiJob) ([]apiObs, string) {
+	apiChildGate.RLock()
+	obs, crash := runAPIChildOnce(job, 120*time.Second)
+	apiChildGate.RUnlock()
+	if strings.HasPrefix(crash, "timeout") {
+		apiChildGate.Lock()
+		obs, crash = runAPIChildOnce(job, 360*time.Second)
+		apiChildGate.Unlock()
+	}
+	return obs, crash
+}
+
+var apiChildGate sync.RWMutex
+
+func runAPIChildOnce(job apiJob, limit time.Duration) ([]apiObs, string) {
 	self, _ := os.Executable()
 	cmd := exec.Command(self, "apichild")
 	// documents travel as hex: JSON would replace bytes that are not valid UTF-8
@@ -210,7 +226,7 @@ func runAPIChild(job apiJob) ([]apiObs, string) {
 	var werr error
 	select {
 	case werr = <-done:
-	case <-time.After(120 * time.Second):
+	case <-time.After(limit):
 		cmd.Process.Kill()
 		werr = fmt.Errorf("timeout")
 	}
